@@ -6,6 +6,7 @@ import (
 	"runtime"
 	"strings"
 	"sync"
+	"time"
 
 	"pgregory.net/rapid"
 	"verif.local/h/batch"
@@ -50,6 +51,7 @@ type c17Unit struct {
 func init() {
 	table["C17"] = func(r *runner) {
 		runtime.GOMAXPROCS(16)
+		watchdog = 900 * time.Second
 		var us []*c17Unit
 		for _, it := range r.items {
 			s := subj.Registry[it.Index]
